@@ -394,7 +394,10 @@ class Ctx:
         if self.notes:
             ev['coverage']['notes'] = self.notes
         ev['coverage']['known_findings_seen'] = sorted(self.known_printed)
-        path = os.path.join(VERIF, 'evidence', '%s.json' % self.pid)
+        # runs against a scratch copy (self-tests with VERIF_REPO) must not overwrite the evidence of /repo
+        evdir = os.path.join(VERIF, 'evidence') if os.path.realpath(REPO) == '/repo' else '/var/tmp/verif-scratch-evidence'
+        os.makedirs(evdir, exist_ok=True)
+        path = os.path.join(evdir, '%s.json' % self.pid)
         tmp = path + '.tmp'
         json.dump(ev, open(tmp, 'w'), indent=1, default=str)
         os.replace(tmp, path)
